@@ -77,6 +77,13 @@ def gen_hostile_case(rng, docopts):
                     if oldid in pr.get(k, []):
                         pr[k] = [m['id'] if x == oldid else x for x in pr[k]] + [twin['id']]
             case['modules'].append(twin)
+    if case['modules'] and rng.random() < 0.12:
+        # a directory overlay adds files to a module after its source was read: their names are checked like the module's own
+        m = rng.choice(case['modules'])
+        ups = rng.choice([1, 2, 3, 4])
+        nm = rng.choice(['..\\' * ups + 'canary\\esc.md', 'sub\\..\\..\\..\\c.md', '\\' + (SB + '/canary/abs.md').lstrip('/').replace('/', '\\'),
+                         'ok/extra.md', 'notes.md', 'a\\b.md'])
+        case['overlays'] = [[m['id'], rng.choice(['global', 'machine', 'project']), [[nm, 'overlay file\n']]]]
     if 'codex' in case['targets'] and rng.random() < 0.5:
         case['targets']['codex']['options']['codex_home'] = rng.choice([
             'relch', './relch', 'rel/../ch', '../project/up', SB + '/home/x/../ch', '~/../home/ch2', SB + '/home/a/b/../../ch3',
@@ -106,6 +113,18 @@ def run_case(args):
         a = R.cli_args(case)
         n = len(case['modules'])
         R.write_world(sb, case, list(range(n)), 1)
+        for mid, scope, files in case.get('overlays') or []:
+            p0_ = sb.cli(['overlay', 'path', '--scope', scope, '--json', '--', mid], extra_env=env)
+            try: odoc = json.loads(p0_.stdout.decode('utf-8', 'replace'))
+            except Exception: odoc = None
+            if odoc and odoc.get('ok'):
+                od = odoc['data']['overlay_dir']
+                if od.startswith(sb.root):
+                    for nm, txt in files:
+                        nm = nm.replace(SB, sb.root)
+                        try: world.write(os.path.join(od, nm), txt.encode())
+                        except OSError: pass
+                    out['tags'].append('overlay:' + scope)
         rc, doc, o, e = sb.cli_json(['plan'] + a, extra_env=env)
         plan = R.canon_plan(doc, sb)
         res = {'plans': [plan], 'sbroot': sb.root}
@@ -247,6 +266,8 @@ def corpus_cases():
          base([mod('skill:my.tool', 'skill', sk), mod('skill:my_tool', 'skill', sk + [('..\\..\\..\\escaped\\note.md', b'E')])]), 'reject'),
         ('ids equal after sanitising: prompt:a b / prompt:a_b',
          base([mod('prompt:a b', 'prompt', [('a.md', b'hi\n')]), mod('prompt:a_b', 'prompt', [('..\\x.md', b'hi\n')])]), 'reject'),
+        ('overlay file ..\\..\\..\\canary\\esc.md is name-checked like the module\'s own files',
+         base([mod('skill:ok', 'skill', sk)], overlays=[['skill:ok', 'global', [['..\\..\\..\\..\\canary\\esc.md', 'E']]]]), 'reject'),
         ('F13 codex_home=<project>//', base([mod('instructions:i', 'instructions', [('AGENTS.md', b'hi\n')])],
                                             targets={'codex': {'scope': 'both', 'options': {'codex_home': SB + '/project//'}}}), 'ok'),
     ]
@@ -275,7 +296,7 @@ def run(ctx):
             ctx.violation(b, {'stream': 'hostile_ids', 'case': R.case_json(case), 'extra': rep.get('extra')})
         res = out.get('res') or {'plans': [('bad', '')]}
         p0 = res['plans'][0]
-        if not out['bad'] and p0[0] in ('ok', 'err') and not (p0[0] == 'ok' and (res.get('roots') is None or any(f['bytes'] is None for f in res['files'].values()))):
+        if not out['bad'] and not case.get('overlays') and p0[0] in ('ok', 'err') and not (p0[0] == 'ok' and (res.get('roots') is None or any(f['bytes'] is None for f in res['files'].values()))):
             R.set_root(res['sbroot'])
             term = cq.cpair(R.coq_cfg(case), R.coq_env(case), R.cs(case['profile']), R.cs(case['filter']), R.coq_obs(res),
                             R.coq_manifests(res) if p0[0] == 'ok' else '[]')
@@ -326,6 +347,8 @@ def run(ctx):
             continue
         if p0[0] == 'ok' and any(f['bytes'] is None for f in res['files'].values()):
             continue
+        if case.get('overlays'):
+            continue          # overlays are outside Model/Render.v (composition is C13's model): implementation-side oracle only
         R.set_root(res['sbroot'])
         term = cq.cpair(R.coq_cfg(case), R.coq_env(case), R.cs(case['profile']), R.cs(case['filter']), R.coq_obs(res),
                         R.coq_manifests(res) if p0[0] == 'ok' else '[]')
